@@ -45,6 +45,14 @@ def stage_mc(ctx):
             v = json.loads(lib.parse_tla_string(lit))
             v["_vh"] = mc.get("vh", ctx.pid)
             vectors.append(v)
+        if "SUBJ" in r["printed"]:
+            # an indexed universe printed by the specification, handed to the harness as a file
+            items = sorted((int(x.split(", ", 1)[0]), lib.parse_tla_string(x.split(", ", 1)[1])) for x in r["printed"]["SUBJ"])
+            sf = os.path.join(ctx.wd, "subjects.jsonl")
+            with open(sf, "w") as f:
+                for _, js in items:
+                    f.write(js + "\n")
+            ctx.env["VH_SUBJECTS"] = sf
         log("MC %s: %d distinct states, %d generated, %d vectors, %.1fs" % (mc["module"], r["distinct"], r["states"], len(r["printed"].get("VEC", [])), r["wall"]))
     return vectors
 
